@@ -131,6 +131,25 @@ def pmap(fn, items, jobs=None):
         return list(ex.map(fn, items))
 
 
+_FMAP = {}
+
+
+def _fcall(i):
+    return _FMAP["fn"](_FMAP["items"][i])
+
+
+def fmap(fn, items, jobs=None):
+    """like pmap but in forked worker processes (the Python-heavy analyses do not run in parallel under threads);
+    results must be picklable"""
+    import multiprocessing as mp
+    items = list(items)
+    if not items:
+        return []
+    _FMAP["fn"], _FMAP["items"] = fn, items
+    with mp.get_context("fork").Pool(min(jobs or JOBS, len(items))) as p:
+        return p.map(_fcall, range(len(items)), chunksize=1)
+
+
 def repo_rev():
     try:
         rc, out, _ = run(["git", "-C", REPO, "rev-parse", "HEAD"])
